@@ -170,6 +170,33 @@ class Family:
                                           pair=dict(kind=ev.get('kind', 'mode'), store=ev.get('store'), loop=loop_params(ev) if ev.get('kind') == 'loop' else None,
                                                     partner=hists[int(ev['partner'].rsplit('.h', 1)[1])] if ev.get('partner') else None)))
 
+    def loop_fixed(self, programs, maxlen, stores='mem,fs,pg'):
+        """engine.Loop on model programs whose sessions end in every way (gracefully, silently, terminated by external code):
+        every input history up to maxlen over the program's alphabet, first alternative of every external call, served by the
+        paired driver (long-lived, persisted, and every second one through engine.Loop with the rest from the store)"""
+        import itertools
+        for prog in programs:
+            pj = json.load(open(prog_path(prog)))
+            alpha = [x for x in pj['inputs'] if x != '']
+            hists = []
+            for n in range(0, maxlen):
+                for tail in itertools.product(alpha + [''], repeat=n):
+                    for picks in ([], [[1]] * (n + 1)):
+                        hists.append(dict(inputs=[''] + list(tail), picks=picks, mode='L', tail=False))
+            hp = os.path.join(self.d, 'lhist_%s.ndjson' % prog)
+            open(hp, 'w').write(''.join(json.dumps(h) + '\n' for h in hists))
+            tr = os.path.join(self.d, 'ltrace_%s.ndjson' % prog)
+            p = core.run_harness(['vise-pairs-hist', prog_path(prog), hp, tr, stores])
+            summ = harness_summary(p)
+            self.out.cov['traces_validated_against_impl'] += summ.get('pairs', 0) * 2
+            nloop = sum(1 for line in open(tr) if '"kind":"loop"' in line)
+            silent = sum(1 for line in open(tr) if '"kind":"loop"' in line and any(a['out'] == '' and not a['err'] and not a['ferr'] for a in json.loads(line)['a']))
+            self.out.cov.setdefault('loop_lines', {})[prog] = dict(lines=nloop, with_a_silent_successful_request=silent)
+            self.validate(tr, 'fixed histories served long-lived, persisted and through engine.Loop (%s)' % prog,
+                          lambda ev, pj=pj, hists=hists: dict(program=pj, history=hists[int(ev['sid'].rsplit('.h', 1)[1])],
+                                          pair=dict(kind=ev.get('kind', 'mode'), store=ev.get('store'), loop=loop_params(ev) if ev.get('kind') == 'loop' else None,
+                                                    partner=hists[int(ev['partner'].rsplit('.h', 1)[1])] if ev.get('partner') else None)))
+
     def examples(self, nsess, maxreq, mode='LP'):
         """the repository's example applications, assembled by the real assembler, stub functions for their LOAD symbols"""
         tr = os.path.join(self.d, 'examples.ndjson')
